@@ -261,7 +261,7 @@ class AMF:
                 s.n_sessions=getattr(s,'n_sessions',0)+1
                 tt='ngapType.PDUSessionResourceSetupRequestTransferIEs'
                 qf={'QosFlowIdentifier':1,'QosFlowLevelQosParameters':{'QosCharacteristics':{'NonDynamic5QI':{'FiveQI':9}},'AllocationAndRetentionPriority':{'PriorityLevelARP':8,'PreEmptionCapability':0,'PreEmptionVulnerability':0}}}
-                tr=[[ [ie_named(tt,130,0,{'PDUSessionAggregateMaximumBitRateDL':s.R.choice([1000,1<<33,4000000000000]),'PDUSessionAggregateMaximumBitRateUL':1000}),
+                tr=[[ [ie_named(tt,130,0,{'PDUSessionAggregateMaximumBitRateDL':s.R.choice([1000,1<<33,4000000000000,0x1DCD008B,0x05008B40,0x008B0100,0x8B008B,0x008B]),'PDUSessionAggregateMaximumBitRateUL':s.R.choice([1000,200000000,0x008B000A,0x8B00])}),
                        ie_named(tt,139,0,{'GTPTunnel':{'TransportLayerAddress':BS(ue.upf,32),'GTPTEID':OS(ue.teid)}}),
                        ie_named(tt,134,0,0),
                        ie_named(tt,136,0,{'List':[qf]})] ]]
